@@ -34,6 +34,14 @@ def run(ctx):
     for h in range(n_hist):
         k = ctx.rng.randrange(2, 13)
         calls = [ctx.rng.choice(pool) for _ in range(k)]
+        # repetitions: the very same call again, directly and after other (failing) calls
+        failing = [c for c in pool if c.impl == "err"]
+        for _ in range(ctx.rng.randrange(0, 3)):
+            i = ctx.rng.randrange(len(calls))
+            x = calls[i]
+            mid = [ctx.rng.choice(failing)] * ctx.rng.randrange(0, 3) if failing else []
+            calls[i + 1:i + 1] = mid + [x]
+            ctx.count("repeated_call_in_history")
         it = TraceInterpreter(spec)
         results = []     # (live object, deep copy at return time)
         shown = []
